@@ -194,20 +194,13 @@ def build():
     rc, out = sh("timeout 3000 make -j%d 2>&1" % NCPU, timeout=3100, cwd=COQ)
     return rc == 0, out[-4000:]
 
-def proof_obligations(pid):
-    """recompile Properties/<pid>.v, pair each theorem with its Print Assumptions answer.
-    returns dict(ok, obligations, discharged, theorems=[{name, assumptions}], log)"""
-    path = os.path.join(COQ, "Properties", pid + ".v")
-    res = dict(ok=False, obligations=0, discharged=0, theorems=[], log="", file="coq/Properties/%s.v" % pid)
-    if not os.path.exists(path):
-        res["log"] = "no property file"
-        return res
-    src = strip_coq_comments(open(path).read())
+def _pair_assumptions(src, rc, out, res):
+    """pair each theorem of a statements file with its Print Assumptions answer in coqc's output"""
+    src = strip_coq_comments(src)
     names = re.findall(r"Print Assumptions\s+([A-Za-z0-9_'.]+)\s*\.", src)
     thms = re.findall(r"^\s*(?:Theorem|Lemma|Corollary)\s+([A-Za-z0-9_']+)", src, re.M)
     res["obligations"] = len(thms)
     missing = [t for t in thms if t not in names]
-    rc, out = sh("timeout 900 coqc -R . SCK Properties/%s.v" % pid, timeout=1000, cwd=COQ)
     res["log"] = out[-3000:]
     if rc != 0:
         return res
@@ -229,6 +222,55 @@ def proof_obligations(pid):
         res["log"] += "\ntheorems without Print Assumptions: %s" % missing
     res["ok"] = ok and res["discharged"] == res["obligations"] and res["obligations"] > 0
     return res
+
+def proof_obligations(pid):
+    """recompile Properties/<pid>.v, pair each theorem with its Print Assumptions answer.
+    returns dict(ok, obligations, discharged, theorems=[{name, assumptions}], log)"""
+    path = os.path.join(COQ, "Properties", pid + ".v")
+    res = dict(ok=False, obligations=0, discharged=0, theorems=[], log="", file="coq/Properties/%s.v" % pid)
+    if not os.path.exists(path):
+        res["log"] = "no property file"
+        return res
+    rc, out = sh("timeout 900 coqc -R . SCK Properties/%s.v" % pid, timeout=1000, cwd=COQ)
+    return _pair_assumptions(open(path).read(), rc, out, res)
+
+TRANSLATORS = {"scoring": ("ScoringGen.v", "ScoringGenProof.v")}
+
+def translator_obligation(name):
+    """regenerate the model of <name> from /repo's current source (harness/translate.py), compile it, and re-check the
+    committed equivalence proofs coq/gen/<..>Proof.v against it. Same result shape as proof_obligations."""
+    from . import translate
+    gen, proof = TRANSLATORS[name]
+    res = dict(ok=False, obligations=0, discharged=0, theorems=[], log="", file="coq/gen/%s (against %s regenerated from %s)" % (proof, gen, REPO))
+    gdir = os.path.join(WORK, "gen_%s_%d" % (name, os.getpid()))
+    shutil.rmtree(gdir, ignore_errors=True)
+    os.makedirs(gdir)
+    try:
+        psrc = open(os.path.join(COQ, "gen", proof)).read()
+        res["obligations"] = len(re.findall(r"^\s*(?:Theorem|Lemma|Corollary)\s+([A-Za-z0-9_']+)", strip_coq_comments(psrc), re.M))
+        try:
+            text = getattr(translate, "translate_" + name)(REPO)
+        except translate.TErr as e:
+            res["log"] = "translator rejected the source (fail-closed): %s" % e
+            return res
+        except Exception as e:
+            res["log"] = "translator failed: %s: %s" % (type(e).__name__, e)
+            return res
+        if FORBIDDEN.search(strip_coq_comments(text)):
+            res["log"] = "generated text contains a forbidden command"
+            return res
+        open(os.path.join(gdir, gen), "w").write(text)
+        open(os.path.join(gdir, proof), "w").write(psrc)
+        rc, out = sh("timeout 300 coqc -R %s SCK -R . SCKGen %s" % (COQ, gen), timeout=320, cwd=gdir)
+        if rc != 0:
+            res["log"] = "generated model does not compile:\n" + out[-2000:]
+            return res
+        rc, out = sh("timeout 600 coqc -R %s SCK -R . SCKGen %s" % (COQ, proof), timeout=620, cwd=gdir)
+        res = _pair_assumptions(psrc, rc, out, res)
+        res["generated_sha256"] = hashlib.sha256(text.encode()).hexdigest()
+        return res
+    finally:
+        shutil.rmtree(gdir, ignore_errors=True)
 
 class Group:
     """one correspondence group: cases of one Coq type checked by one boolean checker"""
